@@ -11,6 +11,7 @@ pub fn base(name: &str, members: &[&str], admins: &[&str], outsiders: &[&str], r
         outsiders: outsiders.iter().map(|s| s.to_string()).collect(),
         cfg: Cfg::default(),
         root: Node { acts: root },
+        same_identity: vec![],
     }
 }
 
@@ -389,5 +390,27 @@ pub fn c08_quick() -> Vec<(Scenario, bool)> {
     v.push((base("admins-describe", &m, &ad, &[], vec![act("A", ActKind::Admins(vec!["A".into(), "C".into()]), 10).then(vec![act("C", ActKind::Describe("by-new-admin".into()), 20)]), act("B", ActKind::Describe("by-old-admin".into()), 15)]), true));
     // non-admin self-update applied both ways, with a message
     v.push((base("selfupdate-msg", &m, &ad, &[], vec![msg("C", "c08-m"), act("C", ActKind::SelfUpdate, 10).then(vec![act("A", ActKind::SelfUpdate, 20)])]), true));
+    v
+}
+
+/// C03: membership histories; observers are explored separately
+pub fn c03_quick() -> Vec<(Scenario, bool)> {
+    let m = ["A", "B", "C", "Z"];
+    let ad = ["A", "B"];
+    let mut v: Vec<(Scenario, bool)> = Vec::new();
+    // removal: the ex-member and an outsider see everything published afterwards
+    v.push((base("removal", &m, &ad, &["O"], vec![msg("C", "c-before"), act("A", ActKind::Remove("C".into()), 10).then(vec![msg("Z", "z-after-removal"), rename("A", "x", 20).then(vec![msg("Z", "z-later")])])]), true));
+    // a joiner is fed the traffic from before it joined
+    v.push((base("joiner", &m, &ad, &["D", "O"], vec![msg("Z", "z-before-join"), act("A", ActKind::Add("D".into()), 10).then(vec![msg("Z", "z-after-join"), msg("D", "d-says")])]), true));
+    // leave + auto-commit
+    v.push((base("leave", &m, &ad, &["O"], vec![act("C", ActKind::Leave, 5), act("A", ActKind::CommitLeave("C.leave0".into()), 10).then(vec![msg("Z", "z-after-leave")])]), true));
+    // removal on a losing branch: the roster is restored by the rollback
+    v.push((base("removal-loses", &m, &ad, &["O"], vec![act("A", ActKind::Remove("C".into()), 20).then(vec![msg("Z", "z-on-loser")]), rename("B", "w", 10).then(vec![msg("Z", "z-on-winner")])]), true));
+    // one user with two devices is removed: both devices are out
+    let mut two = base("removal-two-devices", &["A", "B", "C", "C2", "Z"], &ad, &["O"], vec![msg("C2", "c2-before"), act("A", ActKind::Remove("C".into()), 10).then(vec![msg("Z", "z-after-removal")])]);
+    two.same_identity = vec![("C2".into(), "C".into())];
+    v.push((two, true));
+    // id rotation then removal
+    v.push((base("rotate-remove", &m, &ad, &["O"], vec![act("A", ActKind::RotateId(0xC3), 10).then(vec![act("A", ActKind::Remove("C".into()), 20).then(vec![msg("Z", "z-after")])])]), true));
     v
 }
